@@ -146,6 +146,128 @@ def find_subterm(root, ref):
     return None
 
 
+def euf_to_fp(e, fpvars, F=None):
+    """Translate an EUF shadow term (uninterpreted applications euf_add / euf_neg / euf_mul / euf_div over rational
+    constants and real variables: the operations the code performed, in its order, constants not folded) into an
+    IEEE double term with round-to-nearest-even operations.  Real variables become double variables (collected in
+    fpvars).  Anything else -> KeyError (the side condition is then not decidable here)."""
+    F = z3.Float64() if F is None else F
+    rm = z3.RNE()
+    if z3.is_rational_value(e):
+        from fractions import Fraction as Fr
+
+        return z3.FPVal(float(Fr(e.numerator_as_long(), e.denominator_as_long())), F)
+    if z3.is_const(e) and e.decl().kind() == z3.Z3_OP_UNINTERPRETED:
+        n = e.decl().name()
+        if n not in fpvars:
+            fpvars[n] = z3.FP(n, F)
+        return fpvars[n]
+    name = e.decl().name()
+    ch = [euf_to_fp(c, fpvars, F) for c in e.children()]
+    if name == "euf_add":
+        return z3.fpAdd(rm, ch[0], ch[1])
+    if name == "euf_neg":
+        return z3.fpNeg(ch[0])
+    if name == "euf_mul":
+        return z3.fpMul(rm, ch[0], ch[1])
+    if name == "euf_div":
+        return z3.fpDiv(rm, ch[0], ch[1])
+    # exact-arithmetic nodes that the shim builds itself from such operations
+    k = e.decl().kind()
+    if k == z3.Z3_OP_ADD:
+        r = ch[0]
+        for c in ch[1:]:
+            r = z3.fpAdd(rm, r, c)
+        return r
+    if k == z3.Z3_OP_SUB and len(ch) == 2:
+        return z3.fpSub(rm, ch[0], ch[1])
+    if k == z3.Z3_OP_MUL and len(ch) == 2:
+        return z3.fpMul(rm, ch[0], ch[1])
+    if k == z3.Z3_OP_DIV:
+        return z3.fpDiv(rm, ch[0], ch[1])
+    if k == z3.Z3_OP_UMINUS:
+        return z3.fpNeg(ch[0])
+    raise KeyError(name)
+
+
+def arange_fp_check(ev, ranges, timeout_ms=120000):
+    """The floating-point side condition of one ("arange-float", start, stop, step, L, where) event recorded by the
+    shim (needs C.euf so that the operands carry their operation history): is there a value of the variables, inside
+    `ranges` {name: (lo, hi)}, for which NumPy's IEEE length ceil((stop - start) / step) differs from the exact length L?
+    -> (verdict 'unsat' | 'sat' | 'unknown', model {name: float} | None, seconds)"""
+    import time as _t
+
+    _tag, start, stop, step, L, _where = ev
+    F = z3.Float64()
+    fpvars = {}
+    try:
+        fs, fe, fst = (euf_to_fp(core.eterm(x), fpvars, F) for x in (start, stop, step))
+    except KeyError as ex:
+        return "unknown", {"untranslatable": str(ex)}, 0.0
+    q = z3.fpDiv(z3.RNE(), z3.fpSub(z3.RNE(), fe, fs), fst)
+    n = z3.fpRoundToIntegral(z3.RTP(), q)
+    s = z3.Solver()
+    s.set("timeout", int(timeout_ms))
+    for name, v in fpvars.items():
+        lo, hi = ranges.get(name, (None, None))
+        if lo is None:
+            return "unknown", {"no range for": name}, 0.0
+        s.add(z3.fpGEQ(v, z3.FPVal(float(lo), F)), z3.fpLEQ(v, z3.FPVal(float(hi), F)))
+    s.add(z3.Not(z3.fpEQ(n, z3.FPVal(float(L), F))))
+    t0 = _t.time()
+    # two IEEE divisions of a symbolic double: the cvc5 binary decides these in seconds to a minute where z3's
+    # bit-blaster does not finish in five minutes (probed); z3 is the fallback and the cross-check for small cases
+    r, mdl = _cvc5_fp(s, list(fpvars), timeout_ms)
+    if r == "unknown":
+        r = str(s.check())
+        if r == "sat":
+            m = s.model()
+            mdl = {}
+            for name, v in fpvars.items():
+                hv = m[v]
+                x = float(hv.significand()) * 2.0 ** hv.exponent_as_long(False)
+                mdl[name] = -x if hv.isNegative() else x
+    dt = _t.time() - t0
+    return r, mdl, dt
+
+
+def _cvc5_fp(solver, names, timeout_ms):
+    """/usr/bin/cvc5 on the SMT-LIB text of a z3 solver (QF_FP). -> (verdict, {name: float} | None)"""
+    import os
+    import re
+    import shutil
+    import struct
+    import subprocess
+    import tempfile
+
+    exe = shutil.which("cvc5")
+    if exe is None:
+        return "unknown", None
+    txt = "(set-logic QF_FP)\n" + solver.to_smt2() + "\n(get-model)\n"
+    with tempfile.TemporaryDirectory() as d:
+        f = os.path.join(d, "q.smt2")
+        with open(f, "w") as fh:
+            fh.write(txt)
+        try:
+            p = subprocess.run([exe, "--produce-models", f"--tlimit={int(timeout_ms)}", f], capture_output=True, text=True, timeout=timeout_ms / 1000 + 20)
+        except subprocess.TimeoutExpired:
+            return "unknown", None
+    out = p.stdout
+    first = out.strip().splitlines()[0] if out.strip() else ""
+    if first == "unsat":
+        return "unsat", None
+    if first != "sat":
+        return "unknown", None
+    mdl = {}
+    for n in names:
+        m = re.search(r"\(define-fun " + re.escape(n) + r" \(\) \(_ FloatingPoint 11 53\) \(fp #b([01]) #b([01]{11}) #b([01]{52})\)\)", out)
+        if not m:
+            return "unknown", None
+        bits = int(m.group(1) + m.group(2) + m.group(3), 2)
+        mdl[n] = struct.unpack(">d", bits.to_bytes(8, "big"))[0]
+    return "sat", mdl
+
+
 def _concolic_false(runs, cname, tag):
     """-> the input values of the first concolic run at which claim `cname` is false, else None"""
     from . import concolic as _cc
